@@ -73,6 +73,8 @@ def render_bitfield(d):
     if dflt and dflt["form"] == "const":
         cname = "C_%s" % d["name"].upper()
         # for an arbitrary-int base the macro wraps the constant in `uN::new(…)`: it has the storage type
+        if d.get("docs"):
+            lines.append("/// default value")
         lines.append("pub const %s: u%d = %d;" % (cname, storage_of(N) if N else 8, dflt["value"]))
     if d.get("docs"):
         lines.append("/// documented bitfield")
@@ -248,11 +250,16 @@ def render_run_fn(d, table, surface):
         L.append("        let r = support::catch(|| %s);" % unmk_expr(size, "v.raw_value()"))
         L.append("        o.line(&format!(\"op %s eraw {} = {}\", support::Show::show(&v), support::res(r)));" % name)
         L.append("    }")
+        L.extend(render_const_items(d, table, surface))
         L.append("}")
         return L
     N = base_width(d)
     L.append("    let mk = |r: u128| %s::new_with_raw_value(%s);" % (name, mk_expr(N, "r")))
     L.append("    let rawof = |s: &%s| -> u128 { %s };" % (name, unmk_expr(N, "s.raw_value()")))
+    L.append("    let stor = |s: &%s| -> u128 { support::storage::<%s, %s>(s) };" % (name, name, native_of(N)))
+    # layout and Copy (C06): compiler-checked
+    L.append("    const _: () = assert!(core::mem::size_of::<%s>() == core::mem::size_of::<%s>() && core::mem::align_of::<%s>() == core::mem::align_of::<%s>());" % (name, native_of(N), name, native_of(N)))
+    L.append("    fn _is_copy<T: Copy>() {} _is_copy::<%s>();" % name)
     L.append("    let raws = support::raws(%d, o.seed);" % N)
     L.append("    let wraws = support::wraws(%d, o.seed);" % N)
     # raw round trip and constants
@@ -278,10 +285,10 @@ def render_run_fn(d, table, surface):
         if has_with and has_set:
             conv = conv_expr(f, table)
             if K is None:
-                L.append("    support::op_write(o, \"%s\", \"%s\", None, &wraws, &%s, &mk, &rawof, &|v: u128| %s, &|s: &%s, _i: usize, v| s.with_%s(v), &|s: &mut %s, _i: usize, v| s.set_%s(v));" % (
+                L.append("    support::op_write(o, \"%s\", \"%s\", None, &wraws, &%s, &mk, &rawof, &stor, &|v: u128| %s, &|s: &%s, _i: usize, v| s.with_%s(v), &|s: &mut %s, _i: usize, v| s.set_%s(v));" % (
                     name, fname, vals_call(f, table), conv, name, nr, name, nr))
             else:
-                L.append("    support::op_write(o, \"%s\", \"%s\", Some(%d), &wraws, &%s, &mk, &rawof, &|v: u128| %s, &|s: &%s, i: usize, v| s.with_%s(i, v), &|s: &mut %s, i: usize, v| s.set_%s(i, v));" % (
+                L.append("    support::op_write(o, \"%s\", \"%s\", Some(%d), &wraws, &%s, &mk, &rawof, &stor, &|v: u128| %s, &|s: &%s, i: usize, v| s.with_%s(i, v), &|s: &mut %s, i: usize, v| s.set_%s(i, v));" % (
                     name, fname, K, vals_call(f, table), conv, name, nr, name, nr))
             fields_for_hist.append((fi, f))
     # histories
@@ -318,7 +325,7 @@ def render_run_fn(d, table, surface):
             else:
                 vk = "support::VK::Bits(%d)" % f["width"]
             infos.append("support::FI { name: \"%s\", count: %s, vk: %s }" % (f["name"], "None" if f["count"] is None else "Some(%d)" % f["count"], vk))
-        L.append("    support::op_hist(o, \"%s\", %d, &[%s], &mk, &rawof, &apply, &getters, &|s: &%s| mk(rawof(s)));" % (name, N, ", ".join(infos), name))
+        L.append("    support::op_hist(o, \"%s\", %d, &[%s], &mk, &rawof, &stor, &apply, &getters, &|s: &%s| mk(rawof(s)));" % (name, N, ", ".join(infos), name))
     # builder
     writable = [f for f in d["fields"] if ("with_" + ident_noraw(f["name"])) in surface]
     if "builder" in surface and "build" in surface and d.get("builder_ok", True):
@@ -342,6 +349,8 @@ def render_run_fn(d, table, surface):
         L.append("        let args: Vec<String> = vec![%s];" % ", ".join(args_show))
         L.append("        o.line(&format!(\"op %s build{}{} = {}\", if args.is_empty() { \"\" } else { \" \" }, args.join(\" \"), support::res(r)));" % name)
         L.append("    }")
+    # const context (C15)
+    L.extend(render_const_items(d, table, surface))
     # debug
     if d["debug"]:
         L.append("    for &raw in support::dbg_raws(%d, o.seed).iter() {" % N)
@@ -349,4 +358,124 @@ def render_run_fn(d, table, surface):
         L.append("        o.line(&format!(\"op %s dbg 1 {:#x} = {:?}\", raw, format!(\"{:#?}\", mk(raw))));" % name)
         L.append("    }")
     L.append("}")
+    return L
+
+
+# ---------------------------------------------------------------------------------------------
+# compile-time probes (C14 type-state, C17 absence / presence) and const items (C15)
+# ---------------------------------------------------------------------------------------------
+
+def sample_value_expr(f, table, k=0):
+    """a const-evaluable Rust expression of the field's value type"""
+    w = f["width"]
+    pat = {0: (1 << w) - 1, 1: 0, 2: (0x5555555555555555_5555555555555555 & ((1 << w) - 1))}[k % 3]
+    if f["kind"] in ("enum", "optenum"):
+        return "ALL_%s[%d %% ALL_%s.len()]" % (f["custom"].upper(), k + 1, f["custom"].upper())
+    if f["kind"] == "bool":
+        return "true" if k % 2 == 0 else "false"
+    return conv_expr(f, table, "%du128" % pat)
+
+
+def builder_writable(d):
+    return [f for f in d["fields"] if "w" in f["access"]]
+
+
+def builder_arg(f, table, k=0):
+    v = sample_value_expr(f, table, k)
+    if f["count"] is not None:
+        return "[%s; %d]" % (v, f["count"])
+    return v
+
+
+def render_probes(decls, table, surfaces):
+    """returns (lines, probes) – probes: list of dict(id, decl, what, expect ('ok'|'err'), lines (lo, hi))"""
+    lines = ["#![allow(dead_code, unused, deprecated, non_snake_case, path_statements)]", "use arbitrary_int::*;"]
+    probes = []
+
+    def add(decl, what, expect, body):
+        pid = len(probes)
+        start = len(lines) + 1
+        lines.append("pub fn probe_%d() { %s }" % (pid, body))
+        probes.append({"id": pid, "decl": decl, "what": what, "expect": expect, "lines": (start, len(lines))})
+
+    for d in decls:
+        if d["kind"] != "bitfield":
+            continue
+        name = d["name"]
+        surf = set(x[1] for x in surfaces.get(name, []))
+        if "access" in d["classes"] or "builder" in d["classes"]:
+            for f in d["fields"]:
+                nr = ident_noraw(f["name"])
+                acc = f["access"]
+                add(name, "getter of %s (%s)" % (f["name"], acc or "none"), "ok" if "r" in acc else "err", "let _ = %s::%s;" % (name, f["name"]))
+                add(name, "with_ of %s (%s)" % (f["name"], acc or "none"), "ok" if "w" in acc else "err", "let _ = %s::with_%s;" % (name, nr))
+                add(name, "set_ of %s (%s)" % (f["name"], acc or "none"), "ok" if "w" in acc else "err", "let _ = %s::set_%s;" % (name, nr))
+        if "builder" in d["classes"] and "builder" in surf:
+            ws = builder_writable(d)
+            chain = ["with_%s(%s)" % (ident_noraw(f["name"]), builder_arg(f, table, j)) for j, f in enumerate(ws)]
+            # the full chain must type-check
+            add(name, "full builder chain", "ok", "let _ = %s::builder()%s.build();" % (name, "".join("." + c for c in chain)))
+            # every proper prefix followed by build() must not
+            for k in range(len(chain)):
+                add(name, "build() after %d of %d fields" % (k, len(chain)), "err",
+                    "let _ = %s::builder()%s.build();" % (name, "".join("." + c for c in chain[:k])))
+            # skipping the first field / starting with the second
+            if len(chain) >= 2:
+                add(name, "second field first", "err", "let _ = %s::builder().%s;" % (name, chain[1]))
+                add(name, "first field twice", "err", "let _ = %s::builder().%s.%s;" % (name, chain[0], chain[0]))
+    return lines, probes
+
+
+def render_const_items(d, table, surface):
+    """statements for the runner function of `d`: const-evaluated operations compared with their run-time twins"""
+    L = []
+    name = d["name"]
+    if "kf1" in d.get("classes", []):
+        return L      # known finding KF1: the getter panics, also at compile time
+    if d["kind"] == "bitenum":
+        av = active_variants(d)
+        if not av:
+            return L
+        v = av[0]
+        L.append("    { const C: %s = %s::%s; const R: u128 = %s; let rt = %s; if R != rt { o.line(\"CONST-DIFF %s raw_value\"); } else { o.line(\"CONST-OK %s raw_value\"); } }" % (
+            name, name, v["name"], unmk_expr(d["size"], "C.raw_value()"), unmk_expr(d["size"], "%s::%s.raw_value()" % (name, v["name"])), name, name))
+        x = v["value"]
+        L.append("    { const C: bool = { let r = %s::new_with_raw_value(%s); %s }; let rt = { let r = %s::new_with_raw_value(%s); %s }; if C != rt || !C { o.line(\"CONST-DIFF %s new_with_raw_value\"); } else { o.line(\"CONST-OK %s new_with_raw_value\"); } }" % (
+            name, mk_expr(d["size"], "%du128" % x),
+            "matches!(r, Ok(%s::%s))" % (name, v["name"]) if d["exh"] != "true" else "matches!(r, %s::%s)" % (name, v["name"]),
+            name, mk_expr(d["size"], "%du128" % x),
+            "matches!(r, Ok(%s::%s))" % (name, v["name"]) if d["exh"] != "true" else "matches!(r, %s::%s)" % (name, v["name"]),
+            name, name))
+        return L
+    N = base_width(d)
+    raw = (0x0123456789ABCDEF_FEDCBA9876543210 >> 3) & ((1 << N) - 1)
+    mkc = "%s::new_with_raw_value(%s)" % (name, mk_expr(N, "%du128" % raw))
+    L.append("    { const C: u128 = %s; let rt = %s; if C != rt { o.line(\"CONST-DIFF %s ZERO\"); } else { o.line(\"CONST-OK %s ZERO\"); } }" % (
+        unmk_expr(N, "%s::ZERO.raw_value()" % name), unmk_expr(N, "%s::ZERO.raw_value()" % name), name, name))
+    L.append("    { const C: u128 = %s; let rt = rawof(&mk(%du128)); if C != rt { o.line(\"CONST-DIFF %s new_with_raw_value/raw_value\"); } else { o.line(\"CONST-OK %s raw\"); } }" % (
+        unmk_expr(N, mkc + ".raw_value()"), raw, name, name))
+    if d["default"]:
+        L.append("    { const C: u128 = %s; let rt = rawof(&%s::DEFAULT); if C != rt { o.line(\"CONST-DIFF %s DEFAULT\"); } else { o.line(\"CONST-OK %s DEFAULT\"); } }" % (
+            unmk_expr(N, "%s::DEFAULT.raw_value()" % name), name, name, name))
+    n = 0
+    for f in d["fields"]:
+        if n >= 4:
+            break
+        nr = ident_noraw(f["name"])
+        idx = "" if f["count"] is None else "%d, " % (f["count"] - 1)
+        idxg = "" if f["count"] is None else "%d" % (f["count"] - 1)
+        if (f["name"] in surface or nr in surface) and f["kind"] in ("bool", "native", "signed", "arb"):
+            L.append("    { const C: %s = %s.%s(%s); let rt = mk(%du128).%s(%s); if support::Show::show(&C) != support::Show::show(&rt) { o.line(\"CONST-DIFF %s %s\"); } else { o.line(\"CONST-OK %s %s\"); } }" % (
+                f["ty"], mkc, f["name"], idxg, raw, f["name"], idxg, name, f["name"], name, f["name"]))
+            n += 1
+        if ("with_" + nr) in surface:
+            v = sample_value_expr(f, table, n)
+            L.append("    { const C: u128 = %s; let rt = rawof(&mk(%du128).with_%s(%s%s)); if C != rt { o.line(\"CONST-DIFF %s with_%s\"); } else { o.line(\"CONST-OK %s with_%s\"); } }" % (
+                unmk_expr(N, "%s.with_%s(%s%s).raw_value()" % (mkc, nr, idx, v)), raw, nr, idx, v, name, nr, name, nr))
+            n += 1
+    if "builder" in surface and "build" in surface:
+        ws = [f for f in d["fields"] if ("with_" + ident_noraw(f["name"])) in surface]
+        chain = "".join(".with_%s(%s)" % (ident_noraw(f["name"]), builder_arg(f, table, j)) for j, f in enumerate(ws))
+        L.append("    { const C: u128 = %s; let rt = rawof(&%s::builder()%s.build()); if C != rt { o.line(\"CONST-DIFF %s builder\"); } else { o.line(\"CONST-OK %s builder\"); } }" % (
+            unmk_expr(N, "%s::builder()%s.build().raw_value()" % (name, chain)), name, chain, name, name))
     return L
